@@ -12,6 +12,7 @@ Every theorem is for ALL `Net` (any ParseAddr / Prefix.Contains / Addr.String), 
 configurations, all remote addresses and all header lists of any length and content.
 -/
 import CaddyModel.C10.Witness
+import CaddyModel.C10.Paths
 
 namespace CaddyModel.C10
 
@@ -1082,5 +1083,125 @@ example : (serveConnection toyNet exCfg exTrusted [[(b!"X-Forwarded-For", b!"9.9
 example : elements [b!"a,b", b!"", b!"c"] = [b!"a", b!"b", b!"", b!"c"] := by decide
 -- trimSpace_never_runs_out_of_fuel: NBSP, EM SPACE and ASCII blanks around an address
 example : trimSpace [194, 160, 9, 49, 46, 50, 226, 128, 131, 32] = [49, 46, 50] := by decide
+
+/-! ## paths that run more handlers on the same request: handle_errors routes, handle_response routes
+(Paths.lean; server.go `Server.ServeHTTP` after the primary chain failed, reverseproxy.go `reverseProxy`) -/
+
+/-- **source facts.** `Server.ServeHTTP` puts `RemoteAddr` back from the original request before the error routes
+    run, does not put the header map back, and calls `PrepareRequest` once (REGENERATED from server.go) -/
+theorem error_path_restore_matches_source :
+    restoresRemoteAddr = true ∧ restoresHeader = false ∧ Gen.serveHTTPPrepareCalls = 1 := by decide
+
+/-- **source fact.** every handle_response route is served the request the handler was given (`origReq`), not the
+    prepared clone that already carries X-Forwarded-* (REGENERATED from reverseproxy.go) -/
+theorem response_routes_served_original_matches_source : responseRoutesGetOriginal = true := by decide
+
+section
+variable {Addr Prefix : Type}
+
+/-- the request the error routes run on has the CONNECTION's facts again, whatever a handler of the primary route
+    wrote into `r.RemoteAddr` -/
+theorem error_route_conn_is_the_connection (N : Net Addr Prefix) (cfg : Cfg Prefix) (c : Conn)
+    (spoil : Option Bytes) (w : List (Bytes × Bytes)) :
+    (errorRouteReq N cfg c spoil w).conn = c := by
+  have h : restoresRemoteAddr = true := by decide
+  unfold errorRouteReq restoreOriginal stageOne prepared
+  cases spoil <;> simp [h]
+
+/-- **error routes.** A probe and a reverse_proxy inside handle_errors routes see exactly what they would see in
+    the primary route: same client address, same trusted flag, same X-Forwarded-* — for every request, every
+    configuration and whatever a handler of the primary route wrote into `r.RemoteAddr` before the error. -/
+theorem error_route_attributed_like_the_primary_route (N : Net Addr Prefix) (cfg : Cfg Prefix) (c : Conn)
+    (spoil : Option Bytes) (w : List (Bytes × Bytes)) :
+    serveErrorRoute N cfg c spoil w = serve N cfg c w := by
+  have h : restoresRemoteAddr = true := by decide
+  have h' : restoresHeader = false := by decide
+  unfold serveErrorRoute routeOut errorRouteReq restoreOriginal stageOne prepared serve
+  cases spoil <;> simp [h, h']
+
+/-- … hence non-interference holds inside error routes: nothing an untrusted peer sends changes what they see -/
+theorem error_route_untrusted_noninterference (N : Net Addr Prefix) (cfg : Cfg Prefix) (c : Conn)
+    (spoil spoil' : Option Bytes) (w w' : List (Bytes × Bytes)) (hu : peerTrusted N cfg c = false)
+    (h1 : cfg.omitXFF = false) (h2 : cfg.omitXFP = false) (h3 : cfg.omitXFH = false) :
+    serveErrorRoute N cfg c spoil w = serveErrorRoute N cfg c spoil' w' := by
+  rw [error_route_attributed_like_the_primary_route, error_route_attributed_like_the_primary_route]
+  exact untrusted_noninterference N cfg c w w' hu h1 h2 h3
+
+/-- `{http.request.remote.host}` inside an error route is the connection's host (empty for 0-RTT data): no header
+    and no handler's write to `r.RemoteAddr` reaches it -/
+theorem error_route_remote_host_from_the_connection (N : Net Addr Prefix) (cfg : Cfg Prefix) (c : Conn)
+    (spoil : Option Bytes) (w : List (Bytes × Bytes)) :
+    remoteHostPlaceholder (errorRouteReq N cfg c spoil w).conn =
+      if c.earlyData then [] else hostOrAll c.remoteAddr := by
+  rw [error_route_conn_is_the_connection]; rfl
+
+/-- **response routes, the vars.** handle_response routes read the vars table `PrepareRequest` filled: the client
+    address and the trusted flag are the primary route's, whatever happened to the request in between -/
+theorem response_route_vars_from_the_primary_route (N : Net Addr Prefix) (cfg : Cfg Prefix) (c : Conn)
+    (spoil : Option Bytes) (w : List (Bytes × Bytes)) (o : Out)
+    (h : serveResponseRoute N cfg c spoil w = some o) :
+    o.clientIP = (serve N cfg c w).clientIP ∧ o.trusted = (serve N cfg c w).trusted := by
+  have hr : responseRoutesGetOriginal = true := by decide
+  unfold serveResponseRoute responseRouteReq at h
+  split at h
+  · simp at h
+  · simp only [hr, if_true, Option.map_some, Option.some.injEq] at h
+    subst h
+    simp [routeOut, stageOne, prepared, serve]
+
+/-- **response routes, the forwarding fields.** When no handler touched `r.RemoteAddr`, a reverse_proxy inside a
+    handle_response route sends exactly what it would send in the primary route (the outer handler's own
+    X-Forwarded-* are not appended to a second time); the route does not run iff the outer handler refused. -/
+theorem response_route_attributed_like_the_primary_route (N : Net Addr Prefix) (cfg : Cfg Prefix) (c : Conn)
+    (w : List (Bytes × Bytes)) :
+    serveResponseRoute N cfg c none w =
+      if (serve N cfg c w).fwd.isSome then some (serve N cfg c w) else none := by
+  have hr : responseRoutesGetOriginal = true := by decide
+  unfold serveResponseRoute responseRouteReq
+  simp only [stageOne, prepared, serve, hr, if_true]
+  split
+  · rename_i hp; simp [hp]
+  · rename_i clone hp; simp [routeOut, hp]
+
+end
+
+/-- **wrappers.** Whatever forward_auth / php_fastcgi pre-fill in the reverse_proxy handler they build, it is none
+    of the three forwarding fields (REGENERATED lists): the auth backend / the PHP application get the same
+    X-Forwarded-For, -Proto, -Host as any upstream -/
+theorem wrapper_prefill_leaves_forwarding_fields_alone (wr : Wrapper) :
+    ¬ kXFF ∈ (wrapperPrefill wr).map canonKey ∧ ¬ kXFP ∈ (wrapperPrefill wr).map canonKey ∧
+    ¬ kXFH ∈ (wrapperPrefill wr).map canonKey := by
+  cases wr <;> decide
+
+/-- **source fact.** what the wrappers pre-fill on the pinned tree -/
+theorem wrapper_prefill_matches_source :
+    Gen.forwardAuthPrefill = [b!"X-Forwarded-Method", b!"X-Forwarded-Uri"] ∧ Gen.phpFastcgiPrefill = [] ∧
+    Gen.phpFastcgiHandlerKeys = ["TransportRaw"] := by decide
+
+/-- model fact: WITHOUT the restore, a reverse_proxy inside an error route forwards the address a handler wrote
+    (here 9.9.9.9 instead of the peer 1.2.3.4) — what `r.RemoteAddr = origReq.RemoteAddr` is there for -/
+theorem error_route_without_restore_forwards_the_written_address :
+    (routeOut toyNet exCfg (stageOne exCfg (some b!"9.9.9.9:1") (prepared toyNet exCfg witConn []))).fwd ≠
+      (serve toyNet exCfg witConn []).fwd := by decide
+
+/-- model fact: a response route served the PREPARED clone would append the trusted peer's address a second time -/
+theorem response_route_on_the_clone_appends_twice :
+    (prepareRequest toyNet exCfg exTrusted true (fromWire [(b!"X-Forwarded-For", b!"9.9.9.9")])).bind
+        (fun clone => (prepareRequest toyNet exCfg exTrusted true clone).map (fun h => (fwdOf h).xff)) =
+      some (some (some [b!"9.9.9.9, 10.0.0.1, 10.0.0.1"])) ∧
+    (serve toyNet exCfg exTrusted [(b!"X-Forwarded-For", b!"9.9.9.9")]).fwd.map (·.xff) =
+      some (some (some [b!"9.9.9.9, 10.0.0.1"])) := by decide
+
+-- error_route_*: the zoned IPv6 peer; a handler wrote a trusted address into r.RemoteAddr, X-Forwarded-Proto pre-set to nil
+example : serveErrorRoute toyNet { exCfg with omitXFP := true } exUntrusted (some b!"10.0.0.1:1") exHeaders =
+    ⟨b!"fe80::1", false, some ⟨some (some [b!"fe80::1"]), some none, some (some [b!"example.com"])⟩⟩ := by decide
+example : (errorRouteReq toyNet exCfg exUntrusted (some b!"10.0.0.1:1") exHeaders).conn = exUntrusted ∧
+    remoteHostPlaceholder exUntrusted = b!"fe80::1%eth0" ∧ remoteHostPlaceholder exEarly = [] := by decide
+-- response routes: a trusted peer's prior values are appended to once; a written garbage address makes the outer handler refuse
+example : serveResponseRoute toyNet exCfg exTrusted none [(b!"X-Forwarded-For", b!"9.9.9.9")] =
+    some ⟨b!"9.9.9.9", true, some ⟨some (some [b!"9.9.9.9, 10.0.0.1"]), some (some [b!"http"]), some (some [b!"example.com"])⟩⟩ ∧
+    serveResponseRoute toyNet exCfg exTrusted (some b!"garbage:1") [] = none ∧
+    (serveResponseRoute toyNet exCfg exTrusted (some b!"8.8.8.8:1") []).map (·.clientIP) = some b!"10.0.0.1" := by decide
+example : (wrapperPrefill .forwardAuth).length = 2 ∧ wrapperPrefill .phpFastcgi = [] := by decide
 
 end CaddyModel.C10
